@@ -12,7 +12,9 @@ A *history* is a tuple of operations executed on one real Clock:
 Calls are numbered in creation order (top level and nested creations share one
 counter); ``ref`` is taken modulo the number of calls created so far.  All
 times are small integers in units of 0.25 s, so every float is exact.  After the
-history a final large advance flushes whatever is still pending.
+history large advances (repeated while calls run by the flush schedule further
+calls) flush whatever is still pending, so "never cancelled => runs" is observed
+for every call.
 
 The oracle is an *observer* written from the property statement only.  It
 keeps, per call, its scheduled time (callLater: now+d; reset: now+s; delay:
